@@ -555,6 +555,14 @@ def distinctB : List Nat → Bool
 
 def mmIdsDistinctB (all : List MCls) : Bool := distinctB (all.map (·.id))
 
+/-- no attribute of a walked class (fqn not in `allNames`) points to a class outside the walk that is
+not a match rule (in textX: no attribute refers to `OBJECT`) — then no class is rendered twice -/
+def noOuterClassB (all : List MCls) (allNames : List Str) : Bool :=
+  (all.filter fun c => !allNames.contains c.fqn).all fun c => c.attrs.all fun a =>
+    match findCls all a.clsId with
+    | none => true
+    | some d => !allNames.contains d.fqn || decide (d.typ = .match)
+
 def nameOkB (n : Str) : Bool := n.all fun c => c != '\n' && c != ' ' && c != '{' && c != '}'
 
 def pclsOkB (c : MCls) : Bool :=
